@@ -1,4 +1,4 @@
 #!/bin/sh
 # scratch_benign.sh <benign id> <dir>: scratch copy of /repo/py34 with the stored refactoring applied (for debugging a check)
-rm -rf "$2"; mkdir -p "$2"; cp -r /repo/py34 "$2/py34"; find "$2" -name __pycache__ -prune -exec rm -rf {} \; 2>/dev/null
+rm -rf "$2"; mkdir -p "$2"; git -C /repo archive HEAD py34 | tar -x -C "$2"
 patch -p1 -s -F3 --no-backup-if-mismatch -d "$2" -i /verif/benign/$1/patch.diff && echo "$2/py34/bacpypes"
